@@ -5,6 +5,7 @@ package vault
 import (
 	"encoding/hex"
 	"fmt"
+	"strings"
 	"testing"
 
 	"github.com/openbao/openbao/sdk/v2/logical"
@@ -236,5 +237,181 @@ func TestVerif_C20_RotateThreshold(t *testing.T) {
 		rec.Case(fmt.Sprintf("shamir=%v,t=%d", shamir, th), nontrivial, verifx.Digest(shamir, n, th, hist), func() any {
 			return map[string]any{"shamir": shamir, "n": n, "t": th, "history": hist, "completed": done}
 		})
+	})
+}
+
+// TestVerif_C20_ShareGatedHistory: histories that mix share-gated operations fed with made-up, outdated and genuine
+// shares (root-token generation, root-key rotation with shares) with operations that need no shares (root-key
+// rotation through sys/rotate/root, keyring rotation) and with seal / restart; whatever happened before, the core
+// unseals exactly with the threshold of distinct genuine current shares and with nothing else.
+func TestVerif_C20_ShareGatedHistory(t *testing.T) {
+	rec := verifx.NewRecorder("C20", "share-gated-history", "a Shamir-sealed core with generated n (2..5) and threshold t (2..n) runs a generated history of: root-token generation attempts (sys/generate-root) fed with made-up shares of the right shape, shares of an older generation, genuine shares, or t-1 genuine plus one made-up share; rekey to new shares with genuine shares; root-key rotation without shares (sys/rotate/root); keyring rotation; writes; then seal or restart on the same storage and unseal attempts first with made-up / outdated share sets, then with the genuine ones; oracle: a root token is produced exactly when t distinct genuine current shares were supplied; made-up or outdated share sets never unseal, the threshold of genuine current shares always does, and every value written earlier reads back; non-trivial = a rejected share-gated attempt followed by a share-less root-key rotation or a rekey before the seal")
+	defer rec.Flush()
+	rapid.Check(t, func(rt *rapid.T) {
+		n := 2 + fairIndex(rt, "n", 4)
+		th := 2 + fairIndex(rt, "t", n-1)
+		tc, err := bootCore(t, coreOpts{shamir: true, shares: n, threshold: th, transactional: rapid.Bool().Draw(rt, "transactionalStorage")})
+		if err != nil {
+			t.Fatalf("harness: %v", err)
+		}
+		defer func() { tc.shutdown() }()
+		w := &c10World{t: t, tc: tc, shamir: true, keys: tc.keys, thr: th, secrets: map[string]string{}}
+		var old [][]byte
+		var hist []string
+		nontrivial := false
+		rejectedSeen, rotatedAfterReject := false, false
+		forgedSets := [][][]byte{}
+		forge := func(label string, cnt int) [][]byte {
+			out := make([][]byte, cnt)
+			for i := range out {
+				b := rapid.SliceOfN(rapid.Byte(), len(w.keys[0]), len(w.keys[0])).Draw(rt, fmt.Sprintf("%s%d", label, i))
+				b[len(b)-1] = byte(i + 1) // distinct, non-zero x-coordinates: a well-formed share set
+				out[i] = b
+			}
+			return out
+		}
+		fail := func(sig, msg string) {
+			rec.Violation(rt, sig, map[string]any{"n": n, "t": th, "history": hist}, "%s; history=%v", msg, hist)
+		}
+		generateRoot := func(shares [][]byte, genuine bool, what string) {
+			c := tc.c
+			_ = c.GenerateRootCancel(tc.ctx)
+			otp := strings.Repeat("A", TokenPrefixLength+TokenLength)
+			if err := c.GenerateRootInit(tc.ctx, otp, "", GenerateStandardRootTokenStrategy); err != nil {
+				t.Fatalf("harness: generate-root init: %v", err)
+			}
+			conf, err := c.GenerateRootConfiguration(tc.ctx)
+			if err != nil || conf == nil {
+				t.Fatalf("harness: generate-root config: %v", err)
+			}
+			produced := false
+			var lastErr error
+			for _, s := range shares {
+				res, err := c.GenerateRootUpdate(tc.ctx, TestKeyCopy(s), conf.Nonce, GenerateStandardRootTokenStrategy)
+				lastErr = err
+				if err == nil && res != nil && res.EncodedToken != "" {
+					produced = true
+				}
+				if err != nil {
+					break
+				}
+			}
+			_ = c.GenerateRootCancel(tc.ctx)
+			hist = append(hist, fmt.Sprintf("generate-root with %s -> token=%v err=%v", what, produced, lastErr != nil))
+			if produced && !genuine {
+				fail("root-token-generated-without-genuine-threshold", fmt.Sprintf("a root token was generated from %s", what))
+			}
+			if !produced && genuine {
+				fail("root-token-refused-with-genuine-threshold", fmt.Sprintf("root token generation with %d distinct genuine shares (threshold %d) failed: %v", len(shares), th, lastErr))
+			}
+			if !produced {
+				rejectedSeen = true
+			}
+		}
+		steps := 2 + fairIndex(rt, "steps", 6)
+		for i := 0; i < steps; i++ {
+			switch []string{"genroot-forged", "genroot-forged", "genroot-mixed", "genroot-genuine", "genroot-old", "rekey", "rotate-root", "rotate-root", "rotate-keyring", "write"}[fairIndex(rt, "op", 10)] {
+			case "genroot-forged":
+				f := forge(fmt.Sprintf("forged%d-", i), th)
+				forgedSets = append(forgedSets, f)
+				generateRoot(f, false, "made-up shares")
+			case "genroot-mixed":
+				f := forge(fmt.Sprintf("mixed%d-", i), 1)
+				set := append([][]byte{}, w.keys[:th-1]...)
+				f[0][len(f[0])-1] = 0xfe
+				set = append(set, f[0])
+				forgedSets = append(forgedSets, set)
+				generateRoot(set, false, fmt.Sprintf("%d genuine shares and one made-up share", th-1))
+			case "genroot-genuine":
+				generateRoot(w.keys[:th], true, "the threshold of genuine shares")
+			case "genroot-old":
+				if old == nil {
+					continue
+				}
+				generateRoot(old[:th], false, "shares of the generation before the rekey")
+			case "rekey":
+				keys, err := w.rekey(n, th)
+				if err != nil {
+					fail("rekey-with-genuine-shares-failed", err.Error())
+					return
+				}
+				old, w.keys = w.keys, keys
+				hist = append(hist, "rekey with genuine shares")
+				if rejectedSeen {
+					rotatedAfterReject = true
+				}
+			case "rotate-root":
+				r := tc.req(logical.UpdateOperation, "sys/rotate/root", tc.root, nil)
+				hist = append(hist, fmt.Sprintf("sys/rotate/root -> %v", r))
+				if r.ok() && rejectedSeen {
+					rotatedAfterReject = true
+				}
+			case "rotate-keyring":
+				r := tc.req(logical.UpdateOperation, "sys/rotate", tc.root, nil)
+				hist = append(hist, fmt.Sprintf("sys/rotate -> %v", r))
+			case "write":
+				k := fmt.Sprintf("k%d", i)
+				w.write(k, "v"+k)
+				hist = append(hist, "write "+k)
+			}
+		}
+		w.write("last", "vlast")
+		// ---- seal or restart, then unseal attempts
+		if fairIndex(rt, "restart", 2) == 0 {
+			tc.shutdown()
+			o := tc.opts
+			o.phys, o.noInit, o.keys = tc.phys, true, nil
+			ct := &caseT{T: t}
+			conf := newCoreConfig(ct, &o)
+			c, err := NewCore(conf)
+			if err != nil {
+				t.Fatalf("harness: NewCore on the same storage: %v", err)
+			}
+			ntc := &tcore{t: t, ct: ct, c: c, phys: tc.phys, rec: tc.rec, opts: o, ctx: tc.ctx, root: tc.root}
+			tc = ntc
+			w.tc = ntc
+			hist = append(hist, "restart")
+		} else {
+			if err := tc.seal(); err != nil {
+				t.Fatalf("harness: seal: %v", err)
+			}
+			hist = append(hist, "seal")
+		}
+		try := func(set [][]byte) bool {
+			tc.c.ResetUnsealProcess()
+			for _, s := range set {
+				if ok, _ := tc.c.Unseal(TestKeyCopy(s)); ok {
+					return true
+				}
+			}
+			tc.c.ResetUnsealProcess()
+			return !tc.c.Sealed()
+		}
+		for _, f := range forgedSets {
+			if try(f) {
+				fail("unsealed-with-shares-that-are-not-genuine", "the core was unsealed with a share set that contains made-up shares")
+				return
+			}
+		}
+		if old != nil && try(old[:th]) {
+			fail("unsealed-with-outdated-shares", "the core was unsealed with the shares that were valid before a completed rekey")
+			return
+		}
+		if th > 1 && try(w.keys[:th-1]) {
+			fail("unsealed-below-threshold", fmt.Sprintf("the core was unsealed with %d genuine shares (threshold %d)", th-1, th))
+			return
+		}
+		if !try(w.keys[n-th:]) {
+			fail("genuine-threshold-does-not-unseal", fmt.Sprintf("%d distinct genuine current shares (threshold %d) do not unseal the core", th, th))
+			return
+		}
+		for k, v := range w.secrets {
+			r := tc.req(logical.ReadOperation, "cubbyhole/"+k, tc.root, nil)
+			if !r.ok() || r.resp == nil || r.resp.Data["v"] != v {
+				fail("value-lost", fmt.Sprintf("value %s written before the seal does not read back: %v", k, r))
+			}
+		}
+		nontrivial = rotatedAfterReject
+		rec.Case(fmt.Sprintf("n=%d,t=%d", n, th), nontrivial, verifx.Digest(n, th, hist), func() any { return map[string]any{"n": n, "t": th, "history": hist} })
 	})
 }
